@@ -8,6 +8,7 @@ package types
 // Real keys, real signing code (crypto.Sign over Keccak(VoteSignBytes)), real VoteSet.
 
 import (
+	"bytes"
 	"crypto/ecdsa"
 	"errors"
 	"fmt"
@@ -767,6 +768,73 @@ func (c *c02Case) makeCommit() {
 	acc := c.verify(maj, c.height, cm, "made")
 	if !acc && !maj.IsZero() {
 		o.Viol("commit-roundtrip", fmt.Sprintf("MakeCommit's commit for %s is rejected by VerifyCommit (powers=%v, %s)", c02BidText(maj), c.power, c.commitText(cm)))
+	}
+	if !acc || maj.IsZero() {
+		return
+	}
+	// the same certificate in its other forms: wire form and back, the vote set a restarted node
+	// rebuilds from it (CommitToVoteSet: LastCommit), its bit array and per-index votes
+	c.guardForm("commit-proto-roundtrip", func() string {
+		back, err := CommitFromProto(cm.ToProto())
+		if err != nil {
+			return "CommitFromProto(ToProto()) fails: " + err.Error()
+		}
+		if back.Hash() != cm.Hash() || c.commitText(back) != c.commitText(cm) {
+			return "the commit changes across ToProto/CommitFromProto: " + c.commitText(back)
+		}
+		if err := c.vals.VerifyCommit(c02Chain, maj, c.height, back); err != nil {
+			return "rejected after the round trip: " + err.Error()
+		}
+		return ""
+	})
+	c.guardForm("commit-to-voteset", func() string {
+		vs := CommitToVoteSet(c02Chain, cm, c.vals)
+		m2, ok := vs.TwoThirdsMajority()
+		if !ok || m2 != maj {
+			return fmt.Sprintf("the vote set rebuilt from the commit has majority %s/%v", c02BidText(m2), ok)
+		}
+		if !vs.IsCommit() {
+			return "the rebuilt vote set is not a commit"
+		}
+		again := vs.MakeCommit()
+		if again.Hash() != cm.Hash() {
+			return "MakeCommit of the rebuilt vote set is another commit: " + c.commitText(again)
+		}
+		ba := cm.BitArray()
+		for i, sg := range cm.Signatures {
+			if ba.GetIndex(i) != !sg.Absent() {
+				return fmt.Sprintf("BitArray bit %d = %v, signature absent = %v", i, ba.GetIndex(i), sg.Absent())
+			}
+			v := cm.GetByIndex(uint32(i))
+			if sg.Absent() {
+				continue
+			}
+			if v == nil || v.ValidatorIndex != uint32(i) || v.ValidatorAddress != c.vals.Validators[i].Address || v.Height != c.height || v.Round != c.round ||
+				v.Type != kproto.PrecommitType || (sg.ForBlock() && v.BlockID != maj) || (!sg.ForBlock() && !v.BlockID.IsZero()) {
+				return fmt.Sprintf("GetByIndex(%d) is not the vote that was cast: %v", i, v)
+			}
+			if by := vs.GetByIndex(uint32(i)); by == nil || !bytes.Equal(by.Signature, sg.Signature) {
+				return fmt.Sprintf("the rebuilt vote set holds another vote at index %d", i)
+			}
+		}
+		return ""
+	})
+	o.Stat("mkcommit.forms")
+}
+
+// guardForm runs one derived-form oracle under recover
+func (c *c02Case) guardForm(sig string, f func() string) {
+	msg := ""
+	func() {
+		defer func() {
+			if r := recover(); r != nil {
+				msg = fmt.Sprintf("panic: %v", r)
+			}
+		}()
+		msg = f()
+	}()
+	if msg != "" {
+		c.o.Viol(sig, fmt.Sprintf("%s (powers=%v, %s)", msg, c.power, c.commitText(c.madeCommit)))
 	}
 }
 
